@@ -162,7 +162,6 @@ bool DictCompiler::Compile(const path& schema_file) {
   for (int table_index = 1; table_index < tables_.size(); ++table_index) {
     const auto& pack_name = packs_[table_index - 1];
     auto pack_table = tables_[table_index];
-    EntryCollector collector(std::move(syllabary));
     DictSettings settings;
     auto dict_file = source_resolver_->ResolvePath(pack_name + ".dict.yaml");
     if (!std::filesystem::exists(dict_file)) {
@@ -186,6 +185,9 @@ bool DictCompiler::Compile(const path& schema_file) {
     }
     uint32_t pack_file_checksum =
         compute_dict_file_checksum(dict_file_checksum, dict_files, settings);
+    // take the syllabary only now: the early exits above must leave it intact
+    // for the packs that follow.
+    EntryCollector collector(std::move(syllabary));
     bool rebuild_pack = true;
     if (pack_table->Exists() && pack_table->Load()) {
       rebuild_pack = pack_table->dict_file_checksum() != pack_file_checksum;
